@@ -86,7 +86,8 @@ def version_lattice(ctx, r, thorough):
                 descs.append((cs, ss, orig))
                 ctx.count(("ver", tuple(cs), tuple(ss), orig), both)
                 judge_pair(ctx, res, f"versions client={cs} original={orig} server={ss}",
-                           common=bool(set(cs) & set(ss)), expect_fail=not (set(cs) & set(ss)))
+                           common=bool(set(cs) & set(ss)), expect_fail=not (set(cs) & set(ss)),
+                           rerun={"seed": seed, "client_options": co, "server_options": {"supported_versions": ss}})
     out = lean.run_driver(ops)
     bad = 0
     for o, i, m, d in zip(ops, impl, out, descs):
@@ -139,8 +140,19 @@ def vn_corr(ctx, r, n):
 
 
 # ---------------------------------------------------------------- oracle on connection pairs
-def judge_pair(ctx, res, desc, common=True, expect_fail=False, bad_cert=None, predicted=None):
+def judge_pair(ctx, res, desc, common=True, expect_fail=False, bad_cert=None, predicted=None, rerun=None):
     c, s = res.client, res.server
+    if rerun is not None:     # everything needed to run this pair again (checks.c03.replay)
+        rerun = dict(rerun, judge={"common": common, "expect_fail": expect_fail, "bad_cert": bad_cert, "predicted": predicted})
+    _w = ctx.witness
+
+    class _Ctx:               # adds the re-run recipe to every witness of this pair
+        @staticmethod
+        def witness(what, replay, signature=None):
+            if rerun is not None:
+                replay = dict(replay, kind="pair", rerun=rerun)
+            _w(what, replay, signature)
+    ctx = _Ctx
     for side, info in (("client", c), ("server", s)):
         if info["raised"]:
             ctx.witness(f"{desc}: {side} API raised {info['raised']}", {"scenario": desc}, {"oracle": "pair-raise", "side": side})
@@ -182,6 +194,30 @@ def judge_pair(ctx, res, desc, common=True, expect_fail=False, bad_cert=None, pr
                     f"(client: {c['terminated']}, server: {s['terminated']})", {"scenario": desc}, {"oracle": "no-completion"})
 
 
+BAD_CERTS = [
+    ("not trusted (self-signed, unknown to the client)", {"trusted": False}),
+    ("valid for another name", {"name": "example.org"}),
+    ("expired", {"days": [-10, -1]}),
+    ("not yet valid", {"days": [1, 10]}),
+    ("presented with a private key that is not the certificate's", {"wrong_key": True}),
+]
+
+
+def cert_kwargs(Q, D, kind, spec):
+    """quicpair.run keyword arguments for a (possibly bad) self-signed server certificate"""
+    if spec.get("ca_sans"):        # end-entity certificate for these names, signed by a throw-away CA the client trusts
+        ca, ca_key = Q.make_ca()
+        cert, key = Q.make_leaf(ca, ca_key, spec["ca_sans"])
+        return {"identity": (cert, [], key), "trust": D.pem(ca)}
+    cert, key = Q.make_cert(kind, name=spec.get("name", "localhost"), days=tuple(spec.get("days", (-1, 10))))
+    if spec.get("wrong_key"):
+        _, key = Q.make_cert(kind)
+    kw = {"identity": (cert, [], key)}
+    if spec.get("trusted", True):
+        kw["trust"] = D.pem(cert)
+    return kw
+
+
 def first_common(pref, other):
     return next((x for x in pref if other is not None and x in other), None)
 
@@ -204,7 +240,8 @@ def option_lattice(ctx, r, thorough):
         want = first_common(sc or default, cc or default)
         res = Q.run(seed, co, so)
         judge_pair(ctx, res, f"cipher suites client={cc} server={sc}", common=want is not None,
-                   expect_fail=want is None, predicted={"cipher_suite": None if want is None else int(want)})
+                   expect_fail=want is None, predicted={"cipher_suite": None if want is None else int(want)},
+                   rerun={"seed": seed, "client_options": co, "server_options": so})
         ctx.count(("cipher", str(cc), str(sc)), want is not None)
     for ca, sa in itertools.product(alpn_lists, alpn_lists):
         seed += 1
@@ -217,7 +254,8 @@ def option_lattice(ctx, r, thorough):
             fail = want is None
         res = Q.run(seed, co, so)
         judge_pair(ctx, res, f"ALPN client={ca} server={sa}", common=not fail, expect_fail=fail,
-                   predicted=None if fail or sa is None else {"alpn": want})
+                   predicted=None if fail or sa is None else {"alpn": want},
+                   rerun={"seed": seed, "client_options": co, "server_options": so})
         if not fail and res.client["completed"] and res.client["alpn"] != want:
             ctx.witness(f"ALPN client={ca} server={sa}: negotiated {res.client['alpn']!r}, expected {want!r}",
                         {"client": ca, "server": sa}, {"oracle": "negotiation-law", "field": "alpn"})
@@ -228,27 +266,14 @@ def option_lattice(ctx, r, thorough):
         seed += 1
         cert, key = Q.make_cert(kind)
         res = Q.run(seed, identity=(cert, [], key), trust=D.pem(cert), lossy=thorough)
-        judge_pair(ctx, res, f"{kind} certificate")
+        judge_pair(ctx, res, f"{kind} certificate",
+                   rerun={"seed": seed, "client_options": {}, "server_options": {}, "cert": {"kind": kind}})
         ctx.count(("cert", kind), True)
-        bad = [
-            ("not trusted (self-signed, unknown to the client)", dict(identity=(cert, [], key))),
-            ("valid for another name", None),
-            ("expired", None),
-            ("not yet valid", None),
-            ("presented with a private key that is not the certificate's", None),
-        ]
-        c2, k2 = Q.make_cert(kind, name="example.org")
-        c3, k3 = Q.make_cert(kind, days=(-10, -1))
-        c4, k4 = Q.make_cert(kind, days=(1, 10))
-        _, other = Q.make_cert(kind)
-        bad[1] = (bad[1][0], dict(identity=(c2, [], k2), trust=D.pem(c2)))
-        bad[2] = (bad[2][0], dict(identity=(c3, [], k3), trust=D.pem(c3)))
-        bad[3] = (bad[3][0], dict(identity=(c4, [], k4), trust=D.pem(c4)))
-        bad[4] = (bad[4][0], dict(identity=(cert, [], other), trust=D.pem(cert)))
-        for why, kw in bad:
+        for why, spec in BAD_CERTS:
             seed += 1
-            res = Q.run(seed, **kw)
-            judge_pair(ctx, res, f"{kind} certificate {why}", bad_cert=f"the certificate is {why}")
+            res = Q.run(seed, **cert_kwargs(Q, D, kind, spec))
+            judge_pair(ctx, res, f"{kind} certificate {why}", bad_cert=f"the certificate is {why}",
+                       rerun={"seed": seed, "client_options": {}, "server_options": {}, "cert": dict(spec, kind=kind)})
             ctx.count(("badcert", kind, why), True)
     # chain certificate from the repository's test material
     seed += 1
@@ -350,14 +375,14 @@ def name_matrix(ctx, thorough):
             describe = f"requested server_name={req!r}, CA-signed certificate valid for {label.split('+')}"
             if done and not want:
                 ctx.witness(f"{describe}: the client completed the handshake although the certificate is not valid for the "
-                            f"requested name", {"server_name": req, "certificate_sans": label.split("+"),
+                            f"requested name", {"kind": "name", "server_name": req, "certificate_sans": label.split("+"),
                                                 "certificate_pem": D.pem(cert).decode(), "ca_pem": trust.decode()},
                             {"oracle": "completes-without-authentication", "level": "tls",
                              "requested": "ip-literal" if ":" in req or req[0].isdigit() else "dns-name",
                              "certificate_for": "other-ip" if (":" in label or label[0].isdigit()) else "other-dns"})
             if want and not done:
                 ctx.witness(f"{describe}: the client refused a certificate that is valid for the requested name: {ce!r}",
-                            {"server_name": req, "certificate_sans": label.split("+")},
+                            {"kind": "name", "server_name": req, "certificate_sans": label.split("+")},
                             {"oracle": "valid-certificate-refused", "requested": req, "san": label})
     # ---- the same through real QUIC connections (HandshakeCompleted event)
     seed = 7000
@@ -371,10 +396,12 @@ def name_matrix(ctx, thorough):
         want = same_identity(req, label)
         n += 1
         ctx.count(("name-quic", req, label), want)
+        rr = {"seed": seed, "client_options": {"server_name": req}, "server_options": {},
+              "cert": {"kind": "ec256", "ca_sans": [label]}}
         if want:
-            judge_pair(ctx, res, f"server_name={req!r}, certificate for {label!r}")
+            judge_pair(ctx, res, f"server_name={req!r}, certificate for {label!r}", rerun=rr)
         else:
-            judge_pair(ctx, res, f"server_name={req!r}, certificate for {label!r}",
+            judge_pair(ctx, res, f"server_name={req!r}, certificate for {label!r}", rerun=rr,
                        bad_cert=f"the certificate is valid for {label!r}, not for the requested name {req!r}")
     ctx.notes["name_matrix"] = n
 
@@ -482,7 +509,7 @@ def byte_flips(ctx, r, thorough):
                 mt = sent[d][i][0]
                 ctx.witness(f"{vname}: byte {off} (mask 0x{mask:02x}) of handshake message type {mt} ({d}) was altered in "
                             f"flight and the receiving endpoint still completed the handshake",
-                            {"variant": vname, "direction": d, "message_index": i, "offset": off, "mask": mask,
+                            {"kind": "flip", "variant": vname, "direction": d, "message_index": i, "offset": off, "mask": mask,
                              "message": sent[d][i].hex()},
                             {"oracle": "byte-flip-completes", "variant": vname, "type": int(mt)})
             else:
@@ -547,3 +574,66 @@ def main(tier):
         "byte of every message; thorough: every position x masks 01/80/ff, capped at 5000 per variant) of every "
         "handshake message in both directions for RSA+ALPN, EC, certificate-request and PSK handshakes")
     return ctx.finish()
+
+
+def replay(path):
+    """re-execute the recorded scenario of a replay file against the current tree"""
+    import json
+    d = json.load(open(path))
+    if d.get("kind") != "impl-witness":
+        print("the replay names a broken obligation / tie, nothing to execute:", json.dumps(d.get("broken", []))[:600])
+        return 1
+    tree.activate()
+    from aioquic import tls
+    from harness import quicpair as Q, tlsdrive as D, tlsrogue, tlsscen as S
+    rep = d.get("replay", {})
+    kind = rep.get("kind")
+    ctx = core.Ctx("replay", "quick")
+    if kind in ("rogue", "genuine"):
+        ws = tlsrogue.replay(rep)
+    elif kind == "name":
+        ca, ca_key = Q.make_ca()
+        cert, key = Q.make_leaf(ca, ca_key, rep["certificate_sans"])
+        c = D.client(server_name=rep["server_name"], cadata=D.pem(ca))
+        p = D.Pair(c, D.server(ident=(cert, [], key)))
+        p.run()
+        done = c.state == tls.State.CLIENT_POST_HANDSHAKE
+        want = any(same_identity(rep["server_name"], x) for x in rep["certificate_sans"])
+        ws = [] if done == want else [{"what": f"server_name={rep['server_name']!r} certificate for {rep['certificate_sans']}: "
+                                               f"client completed={done}, expected {want}"}]
+    elif kind == "flip":
+        D.tap_extract()
+        mk = dict(flip_variants(tls, D, S))[rep["variant"]]
+        c, s = mk()
+
+        def tamper(direction, idx, m):
+            if direction == rep["direction"] and idx == rep["message_index"]:
+                b = bytearray(m)
+                b[rep["offset"] % len(b)] ^= rep["mask"]
+                return bytes(b)
+            return m
+        exchange(D, tls, c, s, tamper)
+        receiver = s if rep["direction"] == "c2s" else c
+        done = receiver.state in (tls.State.CLIENT_POST_HANDSHAKE, tls.State.SERVER_POST_HANDSHAKE)
+        ws = [{"what": f"{rep['variant']}: flipped byte {rep['offset']} of message {rep['message_index']} "
+                       f"({rep['direction']}); the receiver still completed"}] if done else []
+    elif kind == "pair":
+        rr = rep["rerun"]
+        co, so = dict(rr["client_options"]), dict(rr["server_options"])
+        for o in (co, so):
+            if "cipher_suites" in o:
+                o["cipher_suites"] = [tls.CipherSuite(x) for x in o["cipher_suites"]]
+        kw = cert_kwargs(Q, D, rr["cert"]["kind"], rr["cert"]) if rr.get("cert") else {}
+        res = Q.run(rr["seed"], co, so, **kw)
+        j = rr["judge"]
+        judge_pair(ctx, res, rep.get("scenario", "replay"), common=j["common"], expect_fail=j["expect_fail"],
+                   bad_cert=j["bad_cert"], predicted=j["predicted"])
+        ws = ctx.witnesses
+    else:
+        print("this witness is not re-executable on its own; re-run ./check C03 with VERIF_SEED set to the seed in the file name")
+        return 2
+    for w in ws:
+        print("still failing:", w["what"][:400])
+    if not ws:
+        print("no longer failing")
+    return 1 if ws else 0
